@@ -2,11 +2,11 @@
 import os
 from tools.py2lean import gen_c02
 
-LEAN_TARGETS = ["EasyFEAVerif.Props.C02"]
-PROPS_MODULES = ["EasyFEAVerif.Props.C02"]
+LEAN_TARGETS = ["EasyFEAVerif.Props.C02", "EasyFEAVerif.Props.C02Kernel"]
+PROPS_MODULES = ["EasyFEAVerif.Props.C02", "EasyFEAVerif.Props.C02Kernel"]
 TRUSTED_EXTRA = [
     "C02: the element matrices have the form K_e = Σ_p w B^T C B, M_e = Σ_p w ρ N^T N: the defining statements are matched against the source on every run (tools/py2lean/gen_c02.py refuses anything else) and the real element matrices are compared with the model evaluated exactly",
-    "C02: 'kernel ⊆ rigid motions on every connected mesh' is not proved (partial): the harness measures the kernel dimension of the real matrices by dense eigen-decomposition (threshold 1e-9 of the largest eigenvalue)",
+    "C02: 'kernel ⊆ physical modes on every connected mesh': the step from the elements to the mesh is proved for every mesh (Props/C02Kernel.lean: global_of_local; constants need one shared node, plane rigid motions two shared nodes at distinct positions, rigid motions in space three non-collinear shared nodes; hinged meshes are shown not to qualify); the element-level premise is proved for conduction on all 19 element types (C07 conduction_kernel_is_constants) and for elasticity on TRI3 (tri3_zero_strain_is_rigid); for the other element types in elasticity it remains decided on the real code: the harness measures the kernel dimension of the real matrices by dense eigen-decomposition (threshold 1e-9 of the largest eigenvalue)",
 ]
 ASSUMPTIONS = ["positive quadrature weights and |det J| > 0 (C07 weights_positive; valid meshes)", "positive-definite constitutive law (C11 iso3_pos_def for the isotropic law)"]
 
